@@ -444,6 +444,8 @@ def main():
         s0_.add_dirichlet(rightr, [0.04], ["x"])
         s0_.Solve()
         ur, dr = np.asarray(s0_.displacement).copy(), np.asarray(s0_.damage).copy()
+        # a damaged band across the plate (the first staggered pass leaves d = 0, and at d = 0 every split gives the same displacement system)
+        dr = np.maximum(dr, 0.625 * np.exp(-((meshr.coord[:, 0] - 1.0) ** 2) / 0.08))
         for pname, kw, setter in (("Gc", dict(Gc=0.8), lambda m: setattr(m, "Gc", 0.8)), ("l0", dict(l0=0.3), lambda m: setattr(m, "l0", 0.3)),
                                   ("split", dict(split="Miehe"), lambda m: setattr(m, "split", "Miehe")), ("regularization", dict(reg="AT1"), lambda m: setattr(m, "regularization", "AT1"))):
             sa, pa = pbuild()
@@ -479,6 +481,10 @@ def main():
             sq.Get_K_C_M_F("damage")
             sq.Get_K_C_M_F("elastic")
             uq, dq = np.asarray(sq.displacement).copy(), np.asarray(sq.damage).copy()
+            dq = np.maximum(dq, 0.625 * np.exp(-((meshq.coord[:, 0] - 1.0) ** 2) / 0.08))      # a damaged band: psi+ and g(d) both matter
+            sq._Set_solutions("damage", dq.copy())
+            sq.Get_K_C_M_F("damage")
+            sq.Get_K_C_M_F("elastic")
             setattr(matq, pname, pval)
             got = {pt: [A.toarray() for A in sq.Get_K_C_M_F(pt)] for pt in ("damage", "elastic")}
             kw = dict(E=210.0, v=0.3, planeStress=True)
@@ -610,6 +616,28 @@ def main():
                          dict(sim="HyperElastic", law=lawn, parameter=pname, value=pval))
     except Exception as ex:  # noqa: BLE001
         res.fail("hyperelastic law-parameter scenario raises", f"{type(ex).__name__}: {str(ex)[:150]}", dict(sim="HyperElastic"))
+
+    # ---------------- one model shared by several simulations: each of them follows its modifications ----------------
+    try:
+        for kind_, mkmodel, mksim, pname, pval in (
+                ("Elastic", lambda: Models.Elastic.Isotropic(2, E=100.0, v=0.3, planeStress=True, thickness=1.0), lambda m_, mo_: Simulations.Elastic(m_, mo_), "E", 250.0),
+                ("Thermal", lambda: Models.Thermal(2.0, 1.0), lambda m_, mo_: Simulations.Thermal(m_, mo_), "k", 3.5)):
+            shared = mkmodel()
+            sims_ = [mksim(gen_mesh("TRI3", h_), shared) for h_ in (1.0, 0.5, 0.7)]      # built one after the other, all alive
+            for s_ in sims_:
+                s_.Get_K_C_M_F()
+            setattr(shared, pname, pval)
+            ref_model = mkmodel()
+            setattr(ref_model, pname, pval)
+            for k_, s_ in enumerate(sims_):
+                Kgot = s_.Get_K_C_M_F()[0].toarray()
+                Kwant = mksim(s_.mesh, ref_model).Get_K_C_M_F()[0].toarray()
+                res.case(("shared-model", kind_, k_))
+                if np.abs(Kgot - Kwant).max() > 1e-9 * np.abs(Kwant).max():
+                    res.fail(f"stale simulation sharing its model sim={kind_}", f"three simulations share one model; after model.{pname} = {pval}, simulation number {k_} (in construction order) still returns the former K "
+                             f"(relative gap {np.abs(Kgot - Kwant).max() / np.abs(Kwant).max():.3e})", dict(sim=kind_, parameter=pname, simulation=k_))
+    except Exception as ex:  # noqa: BLE001
+        res.fail("shared-model scenario raises", f"{type(ex).__name__}: {str(ex)[:150]}", dict(scenario="shared model"))
 
     # ---------------- who observes whom ----------------
     # every parameter holder reachable from the model must notify the simulation; the dependency table of Model/Sources.lean and
